@@ -712,6 +712,27 @@ func (x *Exec) callCommon(st *State, c *ssa.CallCommon, i ssa.Value, pos token.P
 		st.callArgs[key] = append(st.callArgs[key], args)
 		return true
 	}
+	if sm, all := x.modSummary(callee); !all {
+		// frame by effect analysis: only the heaps the callee (transitively) may write or allocate in are havocked
+		x.abstr[fmt.Sprintf("frame by effect analysis (%d heaps) %s", len(sm), shortKey(key))]++
+		st.calls["effect:frame "+shortKey(key)]++
+		st.callArgs[key] = append(st.callArgs[key], args)
+		names := make([]string, 0, len(sm))
+		for n := range sm {
+			names = append(names, n)
+		}
+		sort.Strings(names)
+		for _, n := range names {
+			x.havocHeap(st, n)
+		}
+		x.advanceNow(st)
+		if sig.Results().Len() > 0 {
+			res := x.havocVal(st, resType(i, sig), "fr")
+			setRes(fr, i, res)
+			st.callRes[key] = append(st.callRes[key], res)
+		}
+		return true
+	}
 	x.abstr["havoc "+shortKey(key)]++
 	st.calls["effect:havoc "+shortKey(key)]++
 	st.callArgs[key] = append(st.callArgs[key], args)
